@@ -152,6 +152,18 @@ Proof. intros. now apply ConvPoolProofs.fold_sums_overlaps. Qed.
 Goal True. idtac "ASSUMPTIONS fold_sums_overlaps". Abort.
 Print Assumptions fold_sums_overlaps.
 
+(* F.fold(x, (H, W), kernel, ...) with x of shape (N, R, L) is accepted exactly when the shapes are consistent: R = C*kH*kW for some
+   C, the geometry has at least one window per axis and L = lH*lW; then the geometry is valid and fold_sums_overlaps applies.
+   (Before the fix "fold / col2im (fold mode) validate the shape of their argument" agreeing element counts were enough.) *)
+Theorem fold_accepts_consistent_shapes :
+  forall N R L H W q, 0 < fst (g_k q) -> 0 < snd (g_k q) ->
+    (fold_accepts N R L H W q = true <->
+     exists C, R = C * fst (g_k q) * snd (g_k q) /\
+               1 <= lH (mk_geom N C H W q) /\ 1 <= lW (mk_geom N C H W q) /\ L = lH (mk_geom N C H W q) * lW (mk_geom N C H W q)).
+Proof. exact fold_accepts_iff. Qed.
+Goal True. idtac "ASSUMPTIONS fold_accepts_consistent_shapes". Abort.
+Print Assumptions fold_accepts_consistent_shapes.
+
 (* nn.Conv2d(..., padding='same'): when the constructor accepts, the stride is 1, 2*p = d*(k-1) on each axis and the layer
    maps an (N,C,H,W) input to an output of spatial size (H,W), for every H and W; it raises exactly for a stride other than 1
    or an odd total d*(k-1) on some axis (asymmetric padding is not supported). *)
@@ -229,6 +241,10 @@ Example maxpool_bad_ex :
   map (fun q => ext_code (maxpool2d_fwd g_bad (fun _ => 7) q)) (Out2 g_bad 1) =
   [None; None; None;  Some 7; Some 7; Some 7;  Some 7; Some 7; Some 7;  Some 7; Some 7; Some 7;  Some 7; Some 7; Some 7;  None; None; None].
 Proof. vm_compute. reflexivity. Qed.
+Example fold_shape_ex :      (* the input of the repaired finding: x(1,5,4), output_size (2,6), kernel (2,2) *)
+  let q := {| g_k := (2, 2); g_s := (1, 1); g_p := (0, 0); g_d := (1, 1) |} in
+  fold_accepts 1 5 4 2 6 q = false /\ fold_accepts 1 4 5 2 6 q = true /\ fold_accepts 1 4 4 2 6 q = false /\ fold_accepts 1 4 0 1 1 q = false.
+Proof. vm_compute. repeat split. Qed.
 Example same_ex :
   geo2_code (conv2d_ctor (ATup [3; 5]) (AInt 1) PSame (ATup [2; 1])) = Some [3; 5; 1; 1; 2; 2; 2; 1] /\
   conv2d_ctor (AInt 2) (AInt 1) PSame (AInt 1) = Raises /\
